@@ -125,6 +125,9 @@ func (r *Rule) Equals(newRule *Rule) bool {
 	} else if r.ControlBehavior == Throttling {
 		return r.MaxQueueingTimeMs == newRule.MaxQueueingTimeMs
 	} else {
-		return false
+		// user-defined control behavior: which of the remaining fields it uses is unknown, so compare them all
+		// (returning false made a rule unequal to an identical copy of itself, so every reload rebuilt
+		// the controller and dropped its counters)
+		return r.BurstCount == newRule.BurstCount && r.MaxQueueingTimeMs == newRule.MaxQueueingTimeMs
 	}
 }
